@@ -21,12 +21,11 @@
 #include <libkdumpfile/addrxlat.h>
 
 #define MAXCELLS 64
-struct cell { int as; uint64_t addr; int err; long long st; uint64_t val; };
+struct cell { int as; uint64_t addr; int err; long long st; uint64_t val; unsigned char buf[16]; };
 static struct cell cells[MAXCELLS];
 static int ncells;
 static int byte_order;
 static int ptewidth;		/* 4 or 8: width of the entities the method reads */
-static unsigned char pagebuf[16];
 
 /* signed hex without signed overflow ("-8000000000000000" is INT64_MIN) */
 static long long sx(const char *s)
@@ -51,17 +50,18 @@ static addrxlat_status get_page(const addrxlat_cb_t *cb, addrxlat_buffer_t *buf)
 		return addrxlat_ctx_err(ctx, ADDRXLAT_ERR_NODATA, "No data");
 	if (cells[i].err)
 		return addrxlat_ctx_err(ctx, (addrxlat_status)cells[i].st, "Injected failure");
-	memset(pagebuf, 0, sizeof pagebuf);
+	/* the buffer must stay valid while the library caches it: one per cell */
+	memset(cells[i].buf, 0, sizeof cells[i].buf);
 	if (ptewidth == 4) {
 		uint32_t v = (uint32_t)cells[i].val;
 		if (byte_order == 0) v = htobe32(v); else if (byte_order == 1) v = htole32(v);
-		memcpy(pagebuf, &v, 4);
+		memcpy(cells[i].buf, &v, 4);
 	} else {
 		uint64_t v = cells[i].val;
 		if (byte_order == 0) v = htobe64(v); else if (byte_order == 1) v = htole64(v);
-		memcpy(pagebuf, &v, 8);
+		memcpy(cells[i].buf, &v, 8);
 	}
-	buf->ptr = pagebuf;
+	buf->ptr = cells[i].buf;
 	/* the window covers exactly the requested address: every read goes
 	 * through this callback, memory is keyed by exact address */
 	buf->size = 1;
